@@ -196,6 +196,34 @@ def _check_forwarding(chk, rep, repo):
                            f"the subgraph for {show(X) if X else '?'} must receive the matching index array; got "
                            f"{show(I) if I else 'none'}")
     chk.floor("subgraph constructions in fit/predict", nf, 7)
+    check_constructor_forwarding(rep, repo)
+
+
+def check_constructor_forwarding(rep, repo):
+    # ... and the graph constructors hand that array on, on every path, to the method that creates the nodes
+    fi = repo.need_method("Subgraph", "__init__")
+    w = Walker(repo, fi, self_class="Subgraph", inline=lambda f: False)
+    builds = [e for e in w.events if e.kind == "call" and e.name == "_build" and e.target == ("attr", ("self",), "_build")]
+    bfi = repo.need_method("Subgraph", "_build")
+    names = bfi.params[1:]
+    for e in builds:
+        args = dict(zip(names, e.args))
+        args.update(dict(e.kwargs))
+        rep.ev("ID-forward", e, args.get("I") == ("param", "I"),
+               f"Subgraph.__init__ must pass its index array I to _build on every path; got '{show(args['I']) if 'I' in args else 'nothing'}' "
+               "(the nodes silently get their positions as row ids)")
+    rep.fn("ID-forward-present", fi, "Subgraph.__init__ builds its nodes through _build", len(builds) >= 1,
+           "no call of self._build in the constructor")
+    kfi = repo.need_method("KNNSubgraph", "__init__")
+    wk = Walker(repo, kfi, self_class="KNNSubgraph", inline=lambda f: False)
+    sup = [e for e in wk.events if e.kind == "call" and e.name == "__init__"]
+    oks = False
+    for e in sup:
+        args = dict(zip(fi.params[1:], e.args))
+        args.update(dict(e.kwargs))
+        oks = all(args.get(n) == ("param", n) for n in ("X", "Y", "I"))
+    rep.fn("ID-forward", kfi, "KNNSubgraph.__init__ forwards X, Y, I unchanged to Subgraph.__init__", oks and len(sup) == 1,
+           "the KNN subgraph must be built from the caller's arrays and index array")
 
 
 def check_builders(chk, rep, repo):
